@@ -685,6 +685,19 @@ func (x *Exec) callModifies(in ssa.CallInstruction) ([]string, bool) {
 	}
 	callee := c.StaticCallee()
 	if callee == nil {
+		if ld, ok := c.Value.(*ssa.UnOp); ok && x.fc != nil {
+			if fa, ok := ld.X.(*ssa.FieldAddr); ok {
+				fname := deref(fa.X.Type()).Underlying().(*types.Struct).Field(fa.Field).Name()
+				for _, pf := range strings.Fields(x.fc.Opts["purecalls"]) {
+					if pf == fname {
+						return nil, false
+					}
+				}
+			}
+			if g, ok := ld.X.(*ssa.Global); ok && randVarRe.MatchString(g.Name()) {
+				return nil, false
+			}
+		}
 		return nil, true
 	}
 	if fc := x.L.FuncCon[funcKey(callee)]; fc != nil {
@@ -907,7 +920,7 @@ func (x *Exec) havocConst(prefix, sort string) Term {
 
 func (x *Exec) havocHeapAll(st *State) {
 	for _, c := range x.compOrder {
-		if strings.HasPrefix(c, "G_const_") || c == "Ghost_lastrand" || strings.HasPrefix(c, "Ghost_calls_") {
+		if strings.HasPrefix(c, "G_const_") || strings.HasPrefix(c, "Ghost_last") || strings.HasPrefix(c, "Ghost_calls_") {
 			continue
 		}
 		st.heap[c] = x.havocConst(c, x.comps[c])
